@@ -57,6 +57,43 @@ fn main() {
             let Some(c) = checks::by_id(&a[2]) else { usage() };
             std::process::exit(framework::replay_main(c.as_ref(), &a[3]));
         }
+        "node-loop" => {
+            let n: usize = a[2].parse().unwrap();
+            let rss = || std::fs::read_to_string("/proc/self/statm").ok().and_then(|s| s.split(' ').nth(1).and_then(|x| x.parse::<u64>().ok())).unwrap_or(0) * 4096 / (1 << 20);
+            for i in 0..n {
+                std::thread::spawn(move || {
+                    let rt = tokio::runtime::Builder::new_current_thread().enable_time().build().unwrap();
+                    let _g = rt.enter();
+                    if std::env::var("ONLY_CLIENT").is_ok() {
+                        let c = reqwest::Client::new();
+                        drop(c);
+                    } else {
+                        server::node_probe();
+                    }
+                })
+                .join()
+                .unwrap();
+                if i % 100 == 0 {
+                    println!("node {i}: rss {} MiB", rss());
+                }
+            }
+        }
+        "srv-loop" => {
+            // memory check of simulator B: run one specification n times in this process
+            sim::install_panic_hook();
+            let spec: server::ServerSpec = serde_json::from_str(&std::fs::read_to_string(&a[2]).unwrap()).unwrap();
+            let n: usize = a[3].parse().unwrap();
+            let rss = || std::fs::read_to_string("/proc/self/statm").ok().and_then(|s| s.split(' ').nth(1).and_then(|x| x.parse::<u64>().ok())).unwrap_or(0) * 4096 / (1 << 20);
+            for i in 0..n {
+                let mut s = spec.clone();
+                s.seed = s.seed.wrapping_add(i as u64);
+                let _ = server::run(&s);
+                if i % 100 == 0 {
+                    println!("run {i}: rss {} MiB", rss());
+                }
+            }
+            println!("end: rss {} MiB", rss());
+        }
         "srv-debug" => {
             sim::install_panic_hook();
             let spec: server::ServerSpec = serde_json::from_str(&std::fs::read_to_string(&a[2]).unwrap()).unwrap();
